@@ -21,6 +21,7 @@ import (
 	"reflect"
 	"sync"
 	"testing"
+	"time"
 
 	jsonrpc "github.com/filecoin-project/go-jsonrpc"
 	"pgregory.net/rapid"
@@ -80,12 +81,14 @@ func newC01Env() (*c01Env, error) {
 	return env, nil
 }
 
-func (e *c01Env) Close() {
+func (e *c01Env) Close() { bounded(5*time.Second, e.closeInner) }
+
+func (e *c01Env) closeInner() {
 	for _, ep := range e.eps {
 		for _, c := range ep.closers {
 			c()
 		}
-		ep.srv.Close()
+		closeTestServer(ep.srv)
 	}
 }
 
